@@ -317,7 +317,7 @@ func c15(r *hx.Run) {
 		}
 		return &hx.Reply{ServeContent: true, ETag: c15ETag(c.URI), ModTime: c15ModTime, Header: h, Body: c15Body(c.URI)}
 	})
-	n := r.Pick(1200, 30000)
+	n := r.Pick(1200, 150000)
 	for i := 0; i < n && !r.TooMany(); i++ {
 		c, l := c15Gen(rnd, i, locs)
 		cur = c
